@@ -54,6 +54,7 @@ class C08(Driver):
         w_dl = r.choice([0, 0, 0.2])
         w_lock = r.choice([0, 0, 0.15])
         balanced = r.random() < 0.5
+        w_lend = r.choice([0, 0, 0.15])
         for t in range(nth + 1):          # thread 0 = the main thread
             bias = r.random()
             ops = []
@@ -74,6 +75,10 @@ class C08(Driver):
                     ops.append({"op": r.choice(["lock", "lock", "rlock", "wlock"])})
                 elif r.random() < bias:
                     ops.append({"op": "give", "ch": c, "mid": mid, "shape": r.randrange(len(SHAPES))})
+                    if r.random() < w_lend:
+                        # the payload is a fresh thread channel: the receiver uses it once, drops it and collects,
+                        # the lender goes on using it (shared abstract, reference counted across threads)
+                        ops[-1]["lend"] = 1
                 else:
                     ops.append({"op": "take", "ch": c})
             threads.append({"id": t, "ops": ops, "mode": r.choice(["join", "join", "n", "sup"]) if t else "main"})
@@ -90,6 +95,18 @@ class C08(Driver):
                     th = threads[r.randrange(len(threads))]
                     th["ops"].append({"op": "give", "ch": c, "mid": th["id"] * 1000 + len(th["ops"]), "shape": r.randrange(len(SHAPES))})
                     g += 1
+        burst = None
+        if r.random() < 0.12:
+            # many fibers of the main thread parked on one thread channel; a producer thread serves them all while
+            # the main thread is away from its event loop (blocking sleep): the hand-offs arrive in one burst
+            n = r.choice([5, 17, 18, 33, 40, 65, 70, 100])
+            caps.append(r.choice([0, 0, 1, 8]))
+            bch = len(caps) - 1
+            threads[0]["ops"].insert(r.randint(0, len(threads[0]["ops"])), {"op": "burst-take", "ch": bch, "n": n, "away_ms": r.choice([5, 20])})
+            pt = len(threads)
+            threads.append({"id": pt, "mode": r.choice(["join", "n"]),
+                            "ops": [{"op": "give", "ch": bch, "mid": pt * 1000 + k, "shape": r.choice([0, 1, 4])} for k in range(n)]})
+            burst = {"ch": bch, "n": n}
         sched = r.choice(["random", "random", "pct1", "pct2", "pct3"])
         knobs = {"seed": seed, "p": {"switch": r.choice([0.02, 0.1, 0.3, 0.6])}, "sched": sched,
                  "tick_ns": r.choice([0, 0, 20000, 200000]), "max_yields": 600000}
@@ -99,7 +116,10 @@ class C08(Driver):
             for k in ("eintr_r", "eintr_w", "eagain_r", "epoll_eintr", "epoll_delay"):
                 if r.random() < 0.4:
                     knobs["p"][k] = r.choice([0.05, 0.2])
-        return {"property": "C08", "knobs": knobs, "caps": caps, "threads": threads, "flavour": flavour}
+        plan = {"property": "C08", "knobs": knobs, "caps": caps, "threads": threads, "flavour": flavour}
+        if burst:
+            plan["burst"] = burst
+        return plan
 
     # ---------------- rendering ----------------
     def render(self, plan):
@@ -113,35 +133,50 @@ class C08(Driver):
                                                              .replace('"s-id"', '(string "s-" id)').replace('"nul\\0byte-id"', '(string "nul\\0byte-" id)')
                                                              .replace(":kw-id", '(keyword "kw-" id)').replace('(int/s64 "id")', "(int/s64 (string id))"))
                                                   for i, s in enumerate(SHAPES)))
-        A("(defn show [v] (if (function? v) [:fn (v)] (sim/canon v)))")
+        A("(defn show [v] (cond (function? v) [:fn (v)] (= (type v) :core/channel) :lent-channel (sim/canon v)))")
+        A("(defn borrow [v] (when (= (type v) :core/channel) (ev/give v :echo)) nil)")
+        A("(defn after-borrow [] (gccollect) (gccollect))")
+        # what a plain take hands out must be the [id payload] pair that was given, nothing else
+        A("(defn msg? [v] (and (tuple? v) (= 2 (length v)) (number? (v 0))))")
         for th in plan["threads"]:
             t = th["id"]
             A("(defn body%d [&]" % t)
             A("  (sim/ev :tstart %d)" % t)
+            A("  (def lent @[])")
             A("  (try (do")
             for k, op in enumerate(th["ops"]):
                 o = op["op"]
                 if o == "sleep":
                     A("  (ev/sleep %s)" % (op["ms"] / 1000.0))
                 elif o == "give":
-                    A("  (let [m (mk %d %d)] (sim/ev :inv %d %d) (sim/ev :send %d %d %d (show m))" % (op["shape"], op["mid"], t, k, t, op["ch"], op["mid"]))
+                    mk = "(mk %d %d)" % (op["shape"], op["mid"]) if not op.get("lend") else "(let [c (ev/thread-chan 1)] (array/push lent c) c)"
+                    A("  (let [m %s] (sim/ev :inv %d %d) (sim/ev :send %d %d %d (show m))" % (mk, t, k, t, op["ch"], op["mid"]))
                     A("    (let [[ok v] (protect (ev/give (chans %d) [%d m]))] (sim/ev :ret %d %d :give ok (if ok (if v :ok :closed) v))))"
                       % (op["ch"], op["mid"], t, k))
                 elif o == "take":
                     A("  (sim/ev :inv %d %d)" % (t, k))
-                    A("  (let [[ok v] (protect (ev/take (chans %d)))] (if (and ok v) (sim/ev :got %d %d (v 0) (show (v 1)))) (sim/ev :ret %d %d :take ok (if ok (if v :msg :nil) v)))"
-                      % (op["ch"], t, op["ch"], t, k))
+                    A("  (let [[ok v] (protect (ev/take (chans %d)))] (if (and ok v) (if (msg? v) (do (sim/ev :got %d %d (v 0) (show (v 1))) (borrow (v 1))) (sim/ev :badshape %d %d :take (show v)))) (sim/ev :ret %d %d :take ok (if ok (if v :msg :nil) v)))"
+                      % (op["ch"], t, op["ch"], t, op["ch"], t, k))
+                    A("  (after-borrow)")
+                elif o == "burst-take":
+                    A("  (for j 0 %d (ev/spawn (sim/ev :inv %d (+ 1000 j))" % (op["n"], t))
+                    A("    (let [[ok v] (protect (ev/take (chans %d)))] (if (and ok v) (if (msg? v) (sim/ev :got %d %d (v 0) (show (v 1))) (sim/ev :badshape %d %d :take (show v))))"
+                      % (op["ch"], t, op["ch"], t, op["ch"]))
+                    A("      (sim/ev :ret %d (+ 1000 j) :take ok (if ok (if v :msg :nil) v)))))" % t)
+                    A("  (ev/sleep 0) (os/sleep %s) (ev/sleep 0)" % (op["away_ms"] / 1000.0))
                 elif o == "select":
                     A("  (sim/ev :inv %d %d)" % (t, k))
                     A("  (let [[ok r] (protect (ev/select (chans %d) (chans %d)))]" % (op["chs"][0], op["chs"][1]))
-                    A("    (if (and ok (tuple? r) (= (r 0) :take)) (sim/ev :got %d (cid (r 1)) ((r 2) 0) (show ((r 2) 1))))" % t)
+                    A("    (if (and ok (tuple? r) (= (r 0) :take)) (if (and (= 3 (length r)) (cid (r 1)) (msg? (r 2))) (sim/ev :got %d (cid (r 1)) ((r 2) 0) (show ((r 2) 1))) (sim/ev :badshape %d -1 :select (show r))))" % (t, t))
+                    A("    (if (and ok (not (tuple? r))) (sim/ev :badshape %d -1 :select (show r)))" % t)
                     A("    (sim/ev :ret %d %d :select ok (if (and ok (tuple? r)) (r 0) r) (if (and ok (tuple? r)) (cid (r 1)))))" % (t, k))
                 elif o == "take-dl":
                     A("  (sim/ev :inv %d %d)" % (t, k))
                     A("  (var got false) (var tries 0)")
                     A("  (while (and (not got) (< tries %d)) (++ tries)" % op["tries"])
                     A("    (let [[ok v] (protect (ev/with-deadline %s (ev/take (chans %d))))]" % (op["ms"] / 1000.0, op["ch"]))
-                    A("      (cond (and ok v) (do (set got true) (sim/ev :got %d %d (v 0) (show (v 1))))" % (t, op["ch"]))
+                    A("      (cond (and ok v (not (msg? v))) (do (set got true) (sim/ev :badshape %d %d :take (show v)))" % (t, op["ch"]))
+                    A("            (and ok v) (do (set got true) (sim/ev :got %d %d (v 0) (show (v 1))))" % (t, op["ch"]))
                     A("            ok (set got :closed)")
                     A("            (sim/ev :gaveup %d %d v))))" % (t, op["ch"]))
                     A("  (sim/ev :ret %d %d :take-dl true got)" % (t, k))
@@ -154,6 +189,10 @@ class C08(Driver):
                     A("  (ev/acquire-wlock RW) (sim/ev :crit-enter %d :w) (sim/ev :crit-exit %d :w) (ev/release-wlock RW)" % (t, t))
                 elif o == "rlock":
                     A("  (ev/acquire-rlock RW) (sim/ev :crit-enter %d :r) (sim/ev :crit-exit %d :r) (ev/release-rlock RW)" % (t, t))
+            if any(op.get("lend") for op in th["ops"]):
+                # keep using what was lent out, after the borrowers may have dropped it, collected and exited
+                A("  (ev/sleep 0.003) (gccollect)")
+                A("  (each c lent (ev/count c) (when (> (ev/count c) 0) (ev/take c) (sim/ev :echo)) (ev/give c :again) (ev/take c) (ev/capacity c))")
             A("  ) ([e] (sim/ev :terror %d e)))" % t)
             A("  (sim/ev :tend %d) %d)" % (t, 7000 + t))
         for th in plan["threads"]:
@@ -215,6 +254,11 @@ class C08(Driver):
         # abandoned waits leave their pending entry in the thread channel (known finding): remember where
         stale = {}          # channel -> first seq at which a wait on it was abandoned
         ops = {(th["id"], i): op for th in plan["threads"] for i, op in enumerate(th["ops"])}
+        for th in plan["threads"]:
+            for op in th["ops"]:
+                if op["op"] == "burst-take":
+                    for j in range(op["n"]):
+                        ops[(th["id"], 1000 + j)] = {"op": "take", "ch": op["ch"]}
         for e in evs:
             if e.kind == "gaveup":
                 t, c = e.payload.split(" ")[:2]
@@ -290,6 +334,10 @@ class C08(Driver):
                 q_seq = e.seq
             elif k == "drained":
                 drained = True
+            elif k == "badshape":
+                toks = p.split(" ", 3)
+                V("C08/shape/%s-resumed-with-a-value-of-the-wrong-kind" % toks[2].lstrip(":"),
+                  "thread %s channel %s: %s" % (toks[0], toks[1], toks[3][:120] if len(toks) > 3 else ""))
             elif k == "!lock-discipline":
                 V("C08/lock-discipline/channel-state-touched-without-its-lock", p)
             elif k == "terror":
@@ -318,7 +366,13 @@ class C08(Driver):
         for mid, (t, c, shape, seq) in sorted(got.items(), key=lambda kv: kv[1][3]):
             if mid in sent:
                 seqs.setdefault((sent[mid][0], c, t), []).append(mid)
+        bch = (plan.get("burst") or {}).get("ch")
         for key, mids in seqs.items():
+            if key[1] == bch and key[2] == 0:
+                # the burst takers are distinct fibers of the main thread, one message each: the order in which
+                # *they* run says nothing about the order of delivery (a late taker may find a buffered item
+                # while earlier hand-offs are still waiting in the main thread's event queue)
+                continue
             if mids != sorted(mids):
                 if tainted(key[1]):
                     V("C08/stale-thread-chan-entry/message-forwarded-late-out-of-order", "sender %d channel %d receiver %d: %r" % (key[0], key[1], key[2], mids))
